@@ -94,7 +94,13 @@ func (e *Env) symbolic(st *State, t types.Type, name string) Val {
 		}
 	}
 	s := e.sortOfT(t)
-	return Val{K: kTerm, Typ: t, Sort: s, T: e.D.fresh(name, s)}
+	v := Val{K: kTerm, Typ: t, Sort: s, T: e.D.fresh(name, s)}
+	if s == sStr {
+		// lengths of strings and byte slices are non-negative Go ints far below 2^62 (memory): without this a
+		// symbolic length may be "negative" as a signed 64-bit vector
+		st.define(tApp("bvult", tApp("slen64", v.T), bvLit(1<<40, 64)))
+	}
+	return v
 }
 
 func (e *Env) zero(st *State, t types.Type) Val {
@@ -470,7 +476,17 @@ func (e *Env) safety(st *State, cond, label string, pos token.Pos) {
 		return
 	}
 	if e.nopanic && e.specMode == 0 {
-		e.oblige(st, "nopanic", label+"@"+e.pos(pos), cond, "", pos)
+		site := label + "@" + e.pos(pos)
+		e.oblige(st, "nopanic", site, cond, "", pos)
+		if n := len(e.obls); n > 0 && e.obls[n-1].Kind == "nopanic" {
+			e.obls[n-1].Site = site
+		}
+		ns := make(map[string]bool, len(st.sites)+1)
+		for k := range st.sites {
+			ns[k] = true
+		}
+		ns[site] = true
+		st.sites = ns
 	}
 	st.assume(cond)
 }
